@@ -34,7 +34,7 @@ impl Monitor for C15 {
     fn sizes(&self, tier: Tier) -> Sizes { match tier { Tier::Quick => Sizes { cases: 3_000, min_nontrivial: 8_000 }, Tier::Thorough => Sizes { cases: 150_000, min_nontrivial: 400_000 } } }
 
     fn generate(&self, rng: &mut Rng, _tier: Tier) -> J {
-        let (mut case, t, _sel, _shape) = gen_base(rng, &BaseCfg { shapes: &[Shape::Aggregate], allow_limit: false, allow_having: true, agg_distinct: false, order_insensitive_only: true, exact_data: true, min_lines: 5, max_lines: 40, not_null_column: false });
+        let (mut case, t, _sel, _shape) = gen_base(rng, &BaseCfg { shapes: &[Shape::Aggregate], allow_limit: false, allow_having: true, agg_distinct: false, order_insensitive_only: true, exact_data: true, min_lines: 5, max_lines: 40, not_null_column: false, big_rate: 200, big_lines: 800 });
         if rng.chance(1, 3) {
             // a combinable statement for the split relation
             let key = if rng.chance(1, 2) { col("k") } else { col("g") };
